@@ -13,7 +13,7 @@ VARIABLES cuts,     \* positions (number of commands before) at which the data w
 allvars == <<vars, cuts, alone, parts>>
 IInit == <<NONE, NONE, NONE, 0, <<>>>>
 
-Pool(v) == IF v = 1 THEN <<3, 1, -2, 5, 4, -3>> ELSE <<-1, 4, 6, 2, -5, -2>>
+Pool(v) == IF v = 1 THEN <<3, 1, -2, 5, 4, -3>> ELSE <<0, 4, 6, 0, -5, -2>>      \* (zeros: h0, v0, offsets and controls of exactly zero)
 ArcPool(v) == IF v = 1 THEN <<5, 3, 30, 0, 1, 4, -3>> ELSE <<2, 7, -45, 1, 0, -5, 2>>
 Args(l, v, cz) ==
   LET full == IF Upper(l) = "A" THEN ArcPool(v) ELSE SubSeq(Pool(v), 1, Arity(l))
